@@ -281,6 +281,8 @@ class Parser:
             # the last line started a new statement (the one before it had no ';'):
             # it is still pending - parse it as well instead of keeping it for the next run()
             self.new_statement = False
+            if self.statement.endswith(";"):
+                self.statement = self.statement[:-1]
             self.set_default_flags_in_lexer()
             self.process_statement()
         if self.comments:
@@ -306,7 +308,9 @@ class Parser:
 
         if (final_line or self.new_statement) and self.statement:
             # end of sql operation, remove ; from end of line
-            self.statement = self.statement[:-1]
+            # (a statement closed by the start of the next one has no ';' to remove)
+            if self.statement.endswith(";"):
+                self.statement = self.statement[:-1]
         elif last_line and not self.skip:
             # continue combine lines in one massive
             return
